@@ -170,7 +170,7 @@ func c08R2(c *Ctx, m *frameModel) {
 				return
 			}
 			sf, ok := loadedField(mu.Map)
-			if !ok || !sf.Is("stackFrame", "locals") {
+			if !ok || !isFrameLocals(sf) {
 				return
 			}
 			n++
@@ -425,7 +425,7 @@ func c08R4(c *Ctx) {
 			return
 		}
 		sf, ok := loadedField(mu.Map)
-		if !ok || !sf.Is("stackFrame", "locals") {
+		if !ok || !isFrameLocals(sf) {
 			return
 		}
 		n++
